@@ -21,3 +21,28 @@ def g(F, X):
 
 def register(X, EXTRA):
     EXTRA.append(lambda F: g(F, X))
+
+
+def g2(F, X):
+    lib = X.strip_comments(X.read(X.AR + "/lib.rs"))
+    body = X.fn_body(lib, "get_array_batch")
+    val = None
+    if body:
+        # match arms of the load_cdp result: which error kinds end the batch but keep what was read
+        arms = re.findall(r"Err\s*\(\s*e\s*\)\s*if\s*(.*?)=>\s*\{([^}]*)\}", body, flags=re.S)
+        kinds_break = set()
+        for cond, blk in arms:
+            if "break" in blk:
+                kinds_break.update(re.findall(r"ErrorKind::([A-Za-z]+)", cond))
+        if arms:
+            val = "InvalidInput" in kinds_break
+    F.add("batch_kept_on_invalid_input", "bool", val, True,
+          "alice_protocol_reader lib.rs get_array_batch: does an InvalidInput error (pipe seek past the end) end the batch keeping the CDPs already read")
+
+
+_old_register = register
+
+
+def register(X, EXTRA):
+    _old_register(X, EXTRA)
+    EXTRA.append(lambda F: g2(F, X))
